@@ -11,6 +11,13 @@ NOTE = ("trusted: TLC 1.8/SANY/CommunityModules; harness/refcrypto.py (self-test
 
 # pid -> (technique, level text, design ref)
 CHECKS = {
+    "C01": ("TLA+ AcE2E.tla (clients x appliance x in-order stream per connection with unsolicited/duplicate/other frames; invariants Fresh, "
+            "NeverInvented) model-checked by TLC together with the codec round trips (MC_C10); whole-stack executions of the real code "
+            "(AirConditioner.apply by client A, refresh by a fresh client B, real V2/V3 framing, encryption, handshake, arbitrary TCP "
+            "segmentation, extra frames) judged by TLC with the vendor layouts of AcCommand/AcResponse (Trace_C01)",
+            "Model check of the exchange/stream design; thousands of end-to-end scenarios over every value of every settable field, both "
+            "protocol versions, random credentials/ids, all segmentation styles and extra-frame placements, with TLC deciding that the "
+            "device received, holds and reports exactly the requested state.", "5 C01"),
     "C02": ("TLA+ LanV2Packet.tla: TLC checks encode/decode round trip for every frame length 0..255 under a model cipher/MAC "
             "(MC_V2); TLC judges real _Packet.encode / LAN.send wire bytes and _Packet.decode of independently built packets with "
             "V2PacketClause/V2Decode on reference-evaluated AES/MD5 (Trace_V2)",
